@@ -587,6 +587,7 @@ func sortedKeys[V any](m map[string]V) []string {
 // strAxioms are included in a query only when their trigger symbol occurs in it.
 var strAxioms = []struct{ sym, ax string }{
 	{"", `(assert (= (slen empty$) 0))`},
+	{"maplen$", `(assert (forall ((m Int)) (! (>= (maplen$ m) 0) :pattern ((maplen$ m)))))`},
 	{"slen", `(assert (forall ((s Str)) (! (>= (slen s) 0) :pattern ((slen s)))))`},
 	{"cat", `(assert (forall ((a Str) (b Str)) (! (= (slen (cat a b)) (+ (slen a) (slen b))) :pattern ((cat a b)))))`},
 	{"zeros", `(assert (forall ((n Int)) (! (=> (>= n 0) (= (slen (zeros n)) n)) :pattern ((zeros n)))))`},
